@@ -84,9 +84,9 @@ func (g *Gater) allow(hook string) bool {
 	return ok
 }
 
-func (g *Gater) InterceptPeerDial(peer.ID) bool                  { return g.allow(HookPeerDial) }
-func (g *Gater) InterceptAddrDial(peer.ID, ma.Multiaddr) bool    { return g.allow(HookAddrDial) }
-func (g *Gater) InterceptAccept(network.ConnMultiaddrs) bool     { return g.allow(HookAccept) }
+func (g *Gater) InterceptPeerDial(peer.ID) bool               { return g.allow(HookPeerDial) }
+func (g *Gater) InterceptAddrDial(peer.ID, ma.Multiaddr) bool { return g.allow(HookAddrDial) }
+func (g *Gater) InterceptAccept(network.ConnMultiaddrs) bool  { return g.allow(HookAccept) }
 func (g *Gater) InterceptSecured(network.Direction, peer.ID, network.ConnMultiaddrs) bool {
 	return g.allow(HookSecured)
 }
